@@ -68,11 +68,28 @@ func plantedSig(p string) string {
 	return p
 }
 
+// leadingWord: the first word of the statement, skipping white space and comments (a comment is white space in CQL).
 func leadingWord(q string) string {
 	i := 0
-	for i < len(q) && (q[i] == ' ' || q[i] == '\t' || q[i] == '\n' || q[i] == '\r') {
-		i++
+	for i < len(q) {
+		switch {
+		case q[i] == ' ' || q[i] == '\t' || q[i] == '\n' || q[i] == '\r':
+			i++
+		case strings.HasPrefix(q[i:], "/*"):
+			if e := strings.Index(q[i+2:], "*/"); e >= 0 {
+				i += 2 + e + 2
+			} else {
+				i = len(q)
+			}
+		case strings.HasPrefix(q[i:], "--") || strings.HasPrefix(q[i:], "//"):
+			for i < len(q) && q[i] != '\n' && q[i] != '\r' {
+				i++
+			}
+		default:
+			goto word
+		}
 	}
+word:
 	j := i
 	for j < len(q) && (q[j] >= 'a' && q[j] <= 'z' || q[j] >= 'A' && q[j] <= 'Z' || q[j] >= '0' && q[j] <= '9' || q[j] == '_') {
 		j++
@@ -183,7 +200,20 @@ func c06Arbitrary(rt *rapid.T) string {
 				sb.WriteByte(' ')
 			}
 		}
-		return sb.String()
+		out := sb.String()
+		// comments and $$ strings are scanned before the lexer sees the text: let statements start, contain and end
+		// with their delimiters
+		switch rapid.IntRange(0, 7).Draw(rt, "delims") {
+		case 0:
+			out = "/* c */ " + strings.TrimRight(out, " ") + " $$"
+		case 1:
+			out = strings.TrimRight(out, " ") + " -- $$"
+		case 2:
+			out = "$$" + out
+		case 3:
+			out = "UPDATE ks.t SET a = 1 /* " + out
+		}
+		return out
 	default: // mutation of a valid statement
 		s := cqlgen.Gen(rt, cqlgen.Opts{PlantPct: 10, MaxPlant: 2, Neutral: true})
 		toks := append([]cqlgen.Tok(nil), s.Toks...)
